@@ -218,6 +218,7 @@ func Program() diffrun.Program {
 	var b strings.Builder
 	var exp []string
 	b.WriteString(header)
+	b.WriteString(header2)
 	w := func(f string, a ...any) { fmt.Fprintf(&b, f, a...) }
 	w("\nfunc main() {\n")
 	routes := []struct{ name, call string }{
@@ -443,6 +444,7 @@ func Program() diffrun.Program {
 	}
 `)
 	exp = append(exp, "C11/deferred-js Array:[string:0066,0069,0072,0073,0074,number:7,string:0065,0069,0067,0068,0074,number:1,string:0074,0077,006f,string:0066,0072,006f,006d,002d,0067,006f,number:9]|Object:{k=string:0076}")
+	extraSections(w, &exp)
 	// blocking Go code called from a JavaScript callback fails with the documented error and leaves the scheduler usable
 	w(`	ch := make(chan int)
 	g.Set("goBlocks", func() int { return <-ch })
